@@ -269,6 +269,12 @@ Proof.
       * split; [|intros d' Hd'; inversion Hd'; subst; rewrite Hl; reflexivity].
         cbn [coherent d_cached d_stale]. split; [|split; [exact Hok|exact Hrest]].
         intros x m Hx. rewrite mem_cons. apply Hk in Hx. rewrite Hx. apply orb_true_r.
+  - (* OCtx *)
+    destruct st as [|df st0]; [discriminate|]. destruct s as [|f s0]; [discriminate|].
+    inversion Hd; inversion He; subst. split; [|intros; discriminate].
+    cbn [coherent] in Hco. destruct Hco as [_ [_ Hrest]].
+    cbn [coherent frame_ctx f_cache d_cached d_stale].
+    split; [apply keys_ok_nil|split; [apply cache_ok_nil|exact Hrest]].
 Qed.
 
 (* the reference semantics: no cache at all *)
@@ -1910,6 +1916,8 @@ Proof.
       * inversion El; subst. exact HL.
       * destruct (lookup_uncached (f :: s0) d); inversion El; subst; exact HL.
     + constructor; [reflexivity|exact H2].
+  - destruct s as [|f s0]; [discriminate|]. destruct dst as [|df dst0]; [discriminate|]. inversion He; subst.
+    eexists. split; [reflexivity|]. split; [cbn [length] in *; lia|]. inversion HS; subst. constructor; [reflexivity|assumption].
 Qed.
 
 Lemma dsteps_shape : forall c ops dst s s' rs,
@@ -1967,6 +1975,7 @@ Proof.
   - destruct (mtab_find t p) as [[v r]|]; [|constructor].
     destruct (ents_get (r_ents r) d) as [[e|os]|]; [repeat constructor| |constructor].
     induction os; cbn [map]; constructor; [exact I|assumption].
+  - destruct (mtab_find t c) as [[v r]|]; repeat constructor.
 Qed.
 
 Lemma lookup_step_inv : forall (c : cfg) tr dst sc d res sc',
@@ -1984,6 +1993,7 @@ Lemma elab_item_inv : forall c lt st it st',
 Proof.
   intros c lt st it st' Hb Hi H. destruct it; cbn [elab_item] in H.
   - eapply do_ops_inv; [|exact Hi|exact H]. repeat constructor.
+  - eapply do_ops_inv; [|exact Hi|exact H]. apply use_ops_not_add.
   - eapply do_ops_inv; [|exact Hi|exact H]. apply use_ops_not_add.
   - eapply do_ops_inv; [|exact Hi|exact H]. apply use_ops_not_add.
   - (* site *)
@@ -2151,4 +2161,43 @@ Lemma return_stage_check_dropped_refuted :
   resolve_x (DOver convs) (DOver reds) (XName 2 0) (TOth 12) = (ADecl 20, ADecl 2) /\
   site_result_x 4 (XName 2 0) (TOth 12) (LkOver convs) (LkOver reds) = mkXres (Some 20) (Some 2) MOk (Some 3%nat) /\
   site_result_x_gen (Some 3%nat) 4 (XName 2 0) (TOth 12) (LkOver convs) (LkOver reds) = mkXres (Some 20) None MOk (Some 3%nat).
+Proof. repeat split; vm_compute; reflexivity. Qed.
+
+(* sibling regions: alternatives of a case generate, branches of an if generate, a for generate; each
+   is a region of its own (a seeded change that let all alternatives of a case generate share one
+   region is caught on this program) *)
+Definition prog_siblings : program :=
+ [mkUnit 1 UPrimary [] [IDecl (mkEnt 1 0 (KObj (TInt 0)) None); IDecl (mkEnt 2 1 (KObj (TInt 0)) None)];
+ mkUnit 2 UPrimary [IUseAll 1] [];
+ mkUnit 3 (USecondary 2) [] [IDecl (mkEnt 3 2 (KObj (TInt 0)) None); IOpenFun (mkEnt 4 1 (KFunc (TInt 0) (TInt 0)) None) (mkEnt 5 9 (KObj (TInt 0)) None); IClose; ISite (mkSite 1 0 (UVal (TInt 0))); IOpen; IDecl (mkEnt 6 2 (KObj (TOth 0)) None); IOpenFun (mkEnt 7 1 (KFunc (TInt 0) (TInt 0)) None) (mkEnt 8 9 (KObj (TInt 0)) None); IClose; ISite (mkSite 2 2 (UVal (TOth 0))); ISite (mkSite 3 1 (UCall AUniv (TInt 0))); IClose; IOpen; ISite (mkSite 4 2 (UVal (TInt 0))); ISite (mkSite 5 1 (UCall AUniv (TInt 0))); IDecl (mkEnt 9 2 (KObj (TInt 0)) None); ISite (mkSite 6 2 (UVal (TInt 0))); IClose; IOpen; IDecl (mkEnt 10 2 (KObj (TOth 0)) None); ISite (mkSite 7 2 (UVal (TOth 0))); IClose; IOpen; IDecl (mkEnt 11 3 (KObj (TInt 0)) None); ISite (mkSite 8 3 (UVal (TInt 0))); IClose; IOpen; ISite (mkSite 9 3 (UVal (TInt 0))); IDecl (mkEnt 12 3 (KObj (TOth 0)) None); IClose; IOpen; ISite (mkSite 10 3 (UVal (TInt 0))); IClose; IOpen; IDecl (mkEnt 13 0 (KObj (TInt 0)) None); ISite (mkSite 11 0 (UVal (TInt 0))); IOpen; ISite (mkSite 12 0 (UVal (TInt 0))); IClose; IClose]].
+Lemma example_siblings :
+  family_program prog_siblings = true /\
+  spec_program prog_siblings = [(1, ADecl 1); (2, ADecl 6); (3, ADecl 7); (4, ADecl 3); (5, ADecl 4); (6, ADecl 9); (7, ADecl 10); (8, ADecl 11); (9, AUndeclared); (10, AUndeclared); (11, ADecl 13); (12, ADecl 13)] /\
+  option_map fst (observed cfg_now prog_siblings) = Some [(1, Some 1, MOk); (2, Some 6, MOk); (3, Some 7, MOk); (4, Some 3, MOk); (5, Some 4, MOk); (6, Some 9, MOk); (7, Some 10, MOk); (8, Some 11, MOk); (9, None, MUndeclared); (10, None, MUndeclared); (11, Some 13, MOk); (12, Some 13, MOk)] /\
+  trace_disciplined cfg_now prog_siblings = Some true.
+Proof. repeat split; vm_compute; reflexivity. Qed.
+
+(* context declarations: a context reference stands for the clauses of the context, in place; in the
+   analyser Visibility::add_context_visibility (OCtx).  By-name use clauses before and after the
+   reference conflict alike; overloads and the literals of a type named in the context are added *)
+Definition prog_contexts : program :=
+ [mkUnit 1 UPrimary [] [IDecl (mkEnt 1 0 (KObj (TInt 0)) None); IDecl (mkEnt 2 1 (KObj (TInt 0)) None)];
+ mkUnit 2 UPrimary [] [IDecl (mkEnt 3 0 (KObj (TInt 0)) None); IDecl (mkEnt 4 1 (KFunc (TInt 0) (TInt 0)) None)];
+ mkUnit 3 UPrimary [] [IDecl (mkEnt 5 1 (KFunc (TOth 0) (TInt 0)) None); IDecl (mkEnt 6 2 (KObj (TInt 0)) None)];
+ mkUnit 4 UPrimary [] [IDecl (mkEnt 7 110 (KLit (TOth 10)) None); IDecl (mkEnt 8 2 (KLit (TOth 10)) None); IDecl (mkEnt 9 10 (KType (TOth 10) [(7, 110); (8, 2)]) None)];
+ mkUnit 5 (USecondary 2) [] [IOpenFun (mkEnt 10 1 (KFunc (TInt 0) (TInt 0)) (Some 4)) (mkEnt 11 9 (KObj (TInt 0)) None); IClose];
+ mkUnit 6 (USecondary 3) [] [IOpenFun (mkEnt 12 1 (KFunc (TOth 0) (TInt 0)) (Some 5)) (mkEnt 13 9 (KObj (TOth 0)) None); IClose];
+ mkUnit 7 UPrimary [] [IUseName 1 0; IUseName 2 1; IUseName 4 10];
+ mkUnit 8 UPrimary [] [IUseCtx 7; IUseAll 1];
+ mkUnit 9 UPrimary [IUseName 2 0; IUseName 3 1; IUseName 3 2; IUseCtx 7] [];
+ mkUnit 10 (USecondary 9) [] [ISite (mkSite 1 0 (UVal (TInt 0))); ISite (mkSite 2 1 (UCall AUniv (TInt 0))); ISite (mkSite 3 1 (UCall (ATy (TOth 0)) (TInt 0))); ISite (mkSite 4 2 (UVal (TOth 10))); ISite (mkSite 5 2 (UVal (TInt 0))); ISite (mkSite 6 10 UType)];
+ mkUnit 11 UPrimary [IUseCtx 7; IUseName 2 0; IUseName 3 1; IUseName 3 2] [];
+ mkUnit 12 (USecondary 11) [] [ISite (mkSite 7 0 (UVal (TInt 0))); ISite (mkSite 8 1 (UCall AUniv (TInt 0))); ISite (mkSite 9 1 (UCall (ATy (TOth 0)) (TInt 0))); ISite (mkSite 10 2 (UVal (TOth 10))); ISite (mkSite 11 2 (UVal (TInt 0)))];
+ mkUnit 13 UPrimary [IUseCtx 8] [];
+ mkUnit 14 (USecondary 13) [] [ISite (mkSite 12 0 (UVal (TInt 0))); ISite (mkSite 13 1 (UVal (TInt 0))); ISite (mkSite 14 1 (UCall AUniv (TInt 0)))]].
+Lemma example_contexts :
+  family_program prog_contexts = true /\
+  spec_program prog_contexts = [(1, AConflict); (2, ADecl 4); (3, ADecl 5); (4, AConflict); (5, AConflict); (6, ADecl 9); (7, AConflict); (8, ADecl 4); (9, ADecl 5); (10, AConflict); (11, AConflict); (12, ADecl 1); (13, AConflict); (14, AConflict)] /\
+  option_map fst (observed cfg_now prog_contexts) = Some [(1, None, MConflict); (2, Some 4, MOk); (3, Some 5, MOk); (4, None, MConflict); (5, None, MConflict); (6, Some 9, MOk); (7, None, MConflict); (8, Some 4, MOk); (9, Some 5, MOk); (10, None, MConflict); (11, None, MConflict); (12, Some 1, MOk); (13, None, MConflict); (14, None, MConflict)] /\
+  trace_disciplined cfg_now prog_contexts = Some true.
 Proof. repeat split; vm_compute; reflexivity. Qed.
